@@ -123,12 +123,17 @@ func run(args []string) error {
 			}
 			emit(evs)
 		}
-		caseNo++
-		evs, _, _, _, err = e.RunTrace(caseNo, op, Fault{Mode: "cancel"}, fmt.Sprintf("ctx-%s-%d", op.Name, caseNo), post)
-		if err != nil {
-			return err
+		for k := 0; k <= 1; k++ {
+			if k == 1 && !e.Prep {
+				break
+			}
+			caseNo++
+			evs, _, _, _, err = e.RunTrace(caseNo, op, Fault{Mode: "cancel", K: k}, fmt.Sprintf("ctx-%s-%d", op.Name, caseNo), post)
+			if err != nil {
+				return err
+			}
+			emit(evs)
 		}
-		emit(evs)
 	}
 	return nil
 }
